@@ -10,7 +10,25 @@ def run(tier, seed, replay=None):
         cases = [json.load(open(replay))["case_line"]]
         mc_stats = {"distinct": 0, "generated": 0}
     else:
-        cases, mc_stats, _ = vlib.run_mc("MC_C16.tla", "C16_%s.cfg" % tier, "C16", workers=4, timeout=2400)
+        cases, mc_stats, _ = vlib.run_mc("MC_C16.tla", "C16_quick.cfg", "C16", workers=4, timeout=2400)
+        if tier == "thorough":
+            # 37 templates make the exhaustive space of length-4 histories 1.9 million cases: the thorough
+            # tier adds seeded behaviours of the same machine up to length 6 (`tlc -simulate`; every
+            # state of a behaviour, i.e. every prefix of the history, is a case)
+            seen = set(json.dumps(c["hist"]) for c in cases)
+            st = {"behaviours": 0, "seeds": []}
+            for k in range(4):
+                cs, _, _ = vlib.run_mc("MC_C16.tla", "C16_sim.cfg", "C16.sim%d" % k, workers=1, timeout=2400,
+                                       simulate="num=60", seed=seed * 1000 + k, heap="-Xmx3g")
+                st["behaviours"] += 60
+                st["seeds"].append(seed * 1000 + k)
+                for c in cs:
+                    key = json.dumps(c["hist"])
+                    if key not in seen:
+                        seen.add(key)
+                        cases.append(c)
+            st["histories_added"] = len(cases) - int(mc_stats.get("distinct", 0))
+            mc_stats["simulated"] = st
     cpath = os.path.join(vlib.BUILD, "C16.cases.ndjson")
     epath = os.path.join(vlib.BUILD, "C16.events.ndjson")
     vlib.write_ndjson(cpath, cases)
@@ -29,7 +47,7 @@ def run(tier, seed, replay=None):
     return vlib.finish(
         "C16", tier, seed, t0, bad, events, cases, mc_stats, tstats,
         {"exhaustive": replay is None,
-         "rule": "every history of at most MaxLen calls over the 16 call templates of MC_C16 (repeats, shared sub-schemas, "
+         "rule": "every history of at most MaxLen calls over the 37 call templates of MC_C16 (repeats, shared sub-schemas, "
                  "coinciding hints/titles, repeated definition keys, merged batches, a failing schema); each TLC state is one "
                  "history; non-trivial = at least two calls",
          "distinct_nontrivial": sum(1 for c in cases if len(c["hist"]) >= 2),
